@@ -202,6 +202,31 @@ func ruleC08NumericSiblings(c *Ctx) {
 		return
 	}
 	rc, re := c.recognisers(cls, ext, 1), c.recognisers(ext, ext, 0)
+	// the same recognition written as a dispatch on the kind: a return of "integer" / "number" that is reached
+	// exactly for (a set containing) all signed, unsigned or float kinds
+	{
+		subj := subjectSet(cls, cls.Params[0])
+		kf := KindFlow(cls, func(v ssa.Value) bool { return subj[v] }, nil)
+		var numeric KindSet
+		core.EachInstr(cls, func(i ssa.Instruction) {
+			ret, ok := i.(*ssa.Return)
+			if !ok || len(ret.Results) == 0 {
+				return
+			}
+			for _, src := range append(traceSources(returnedValue(ret, 0)), returnedValue(ret, 0)) {
+				if s, ok := constString(src); ok && (s == "integer" || s == "number") {
+					if ks := kf.At(ret); ks != AllKinds && ks&Kinds(kString, kInvalid) == 0 {
+						numeric |= ks
+					}
+				}
+			}
+		})
+		for k, set := range map[string]KindSet{"CanInt": intKinds, "CanUint": uintKinds, "CanFloat": floatKinds} {
+			if numeric&set == set {
+				rc[k] = true
+			}
+		}
+	}
 	for _, k := range []string{"CanInt", "CanUint", "CanFloat", "json.Number"} {
 		c.R.Check(re[k], rule, "extractor:"+k, c.P.Pos(ext.Pos()), "the number extractor recognises "+k, "the number extractor does not recognise "+k+": such instances are not numbers for minimum/maximum/multipleOf, enum and const")
 		c.R.Check(rc[k], rule, "classifier:"+k, c.P.Pos(cls.Pos()), "the type classifier recognises "+k, "the type classifier does not recognise "+k+" although the number extractor does: an instance carried that way gets a different `type` verdict than the canonical decoding of the same JSON number")
